@@ -3,6 +3,7 @@
 package server
 
 import (
+	"encoding/json"
 	"fmt"
 	"os"
 	"strings"
@@ -15,9 +16,10 @@ import (
 
 const c11Rule = "seeded histories on a real single-node server with the __cursors stream on: config drawn per history " +
 	"(1-3 cursors partitions, segment size 300-6000 B so the cursors log rolls, cache on / off (cursorManager.disableCache), 3-10 clients, " +
-	"compaction by forced Clean() or by the log's own cleaner ticker, auto-pause on/off); phases: concurrent clients (55% hot / 25% warm / 20% cold keys, " +
-	"set:fetch 1:1, background Clean() and cache purges at seeded operation counts), then a seeded order of {compact, evict the LRU with >512 keys, pause+resume, " +
-	"restart on the same data dir}, each followed by sequential checks (fetch as-is, fetch after a cache purge, write->read), a second concurrent phase and a final check. " +
+	"60% forced Clean() / 20% the log's own cleaner ticker (which also rolls a full active segment; these histories only compact) / 20% auto-pause timer on (these do not compact)); " +
+	"phases: concurrent clients (55% hot / 25% warm / 20% cold keys, set:fetch 1:1, background Clean() and cache purges at seeded operation counts), then a seeded order of " +
+	"{compact, evict the LRU with >512 acknowledged keys, pause+resume (PauseStream or the auto-pause timer), restart on the same data dir}, each followed by sequential checks " +
+	"(fetch as-is, fetch after a cache purge, write->read), a second concurrent phase and a final check. " +
 	"Every op is stamped call/return from one monotonic clock, set values are unique; oracle = direct 'definitely overwritten' rule per fetch + porcupine register model per key " +
 	"(failed sets stay open to the end). non-trivial = the history completed, the cursors log had >=3 segments in one partition, compaction removed >=1 record and >=1 of " +
 	"{eviction reached 512 entries, pause, restart} happened (auto-pause histories do not compact: the timer paused the partitions); distinct = config signature + history seed"
@@ -228,14 +230,14 @@ func TestVerifC11Single(t *testing.T) {
 	rep.SetRule(c11Rule)
 	rep.Assume("a FetchCursor that returns an error observed nothing (it is not a wrong answer); only at quiescent points a persistently failing fetch on a ready leader is reported")
 	rep.Assume("a SetCursor that failed or timed out may or may not take effect; it is kept open to the end of the history")
-	total := kit.Scale(18, 180)
+	total := kit.Scale(18, 150)
 	root := kit.NewRNG(kit.Mix(kit.Seed(), 0xC11))
 	for g := 0; g < total; g++ {
 		seed := root.Uint64()
 		if g%shards != shard {
 			continue
 		}
-		if only := os.Getenv("C11_ONLY_HISTORY"); only != "" && only != fmt.Sprint(seed) {
+		if only := c11ReplaySeed(); only != "" && only != fmt.Sprint(seed) {
 			continue // replaying one history (its seed is in every witness)
 		}
 		if rep.NumViolations() >= 4 {
@@ -243,6 +245,32 @@ func TestVerifC11Single(t *testing.T) {
 		}
 		c11RunSingle(rep, unit, g, seed)
 	}
+}
+
+// c11ReplaySeed: ./check C11 --replay <file> (VERIF_REPLAY) or
+// C11_ONLY_HISTORY=<history_seed> re-runs the one history named by a witness
+// (same configuration and client programs; the interleaving is not replayed).
+func c11ReplaySeed() string {
+	if s := os.Getenv("C11_ONLY_HISTORY"); s != "" {
+		return s
+	}
+	f := os.Getenv("VERIF_REPLAY")
+	if f == "" {
+		return ""
+	}
+	b, err := os.ReadFile(f)
+	if err != nil {
+		return ""
+	}
+	var r struct {
+		Witness struct {
+			HistorySeed json.Number `json:"history_seed"`
+		} `json:"witness"`
+	}
+	if json.Unmarshal(b, &r) != nil {
+		return ""
+	}
+	return r.Witness.HistorySeed.String()
 }
 
 var _ = strings.Join
